@@ -31,6 +31,10 @@
 //       about the centre line of the contact frame rebuilt by setRotationFromOneAxis, relative to the
 //       non-spinning frame the acceleration rows assume                                          (off-manifold)
 // Anything not explained by these terms, on any type and in either regime, is a violation.
+// State reuse: every oracle is local to one <t,q,u>; each regime is judged on the state as generated and
+// again on the SAME State object after a u-only change, a q-only change and (PrescribedMotion) a time-only
+// change (keys suffixed :after-...-only-change), so stale lazily cached constraint data is seen. C08 does
+// the same for non-redundant sets and also compares with a State whose cache is rebuilt from Position up.
 // Side observations (counted, not judged): Pq versus dqerr/dq and calcPq versus calcPqTranspose^T along
 // q-directions outside range(N) (quaternion scaling; spin of LineOrientation/FreeLine about their axis).
 #include "model.h"
